@@ -50,24 +50,39 @@ func propC11(c *Ctx) {
 		call *ssa.Call
 	}
 	var colApps, defApps []app
-	allInstrs(sc, func(in ssa.Instruction) {
-		st, ok := in.(*ssa.Store)
-		if !ok {
-			return
-		}
-		f, _ := fieldOf(st.Addr)
-		call, isCall := st.Val.(*ssa.Call)
-		if !isCall || calleeName(call) != "builtin append" {
-			return
-		}
-		switch f {
-		case fCols:
-			colApps = append(colApps, app{st, call})
-		case fDefs:
-			defApps = append(defApps, app{st, call})
-		}
+	// the two appends may live in a function literal of setCols that both loops call (add := func(def coldef) {…})
+	var sharedAdd *ssa.Function
+	withClosures(sc, func(g *ssa.Function) {
+		allInstrs(g, func(in ssa.Instruction) {
+			st, ok := in.(*ssa.Store)
+			if !ok {
+				return
+			}
+			f, _ := fieldOf(st.Addr)
+			call, isCall := st.Val.(*ssa.Call)
+			if !isCall || calleeName(call) != "builtin append" {
+				return
+			}
+			switch f {
+			case fCols:
+				colApps = append(colApps, app{st, call})
+			case fDefs:
+				defApps = append(defApps, app{st, call})
+			}
+			if (f == fCols || f == fDefs) && g != sc {
+				sharedAdd = g
+			}
+		})
 	})
-	c.Check("R11.1", "setCols/paired-appends", sc.Pos(), len(colApps) == len(defApps) && len(colApps) >= 2, fmt.Sprintf("%d appends to Columns, %d to coldefs", len(colApps), len(defApps)))
+	var addSites []*ssa.Call
+	if sharedAdd != nil {
+		addSites = callsToFn(sc, sharedAdd)
+	}
+	nPairs := len(colApps)
+	if sharedAdd != nil && len(colApps) == 1 {
+		nPairs = len(addSites) // one pair, executed from each place that calls the literal
+	}
+	c.Check("R11.1", "setCols/paired-appends", sc.Pos(), len(colApps) == len(defApps) && nPairs >= 2, fmt.Sprintf("%d appends to Columns, %d to coldefs", len(colApps), len(defApps)))
 	for i := range colApps {
 		if i >= len(defApps) {
 			break
@@ -78,9 +93,18 @@ func propC11(c *Ctx) {
 		nameOK := false
 		if vs, ok := varargValues(ca.call.Call.Args[1]); ok && len(vs) == 1 {
 			root, chain := fieldChain(vs[0])
-			if chainIs(chain, fColName) {
+			if chainIs(chain, fColName) || (len(chain) == 2 && chain[1] == fColName) {
 				// the coldef literal's Column field is the same `c`
 				if dvs, ok := varargValues(da.call.Call.Args[1]); ok && len(dvs) == 1 {
+					// the coldef appended is the very value whose Column names the entry (append(ig.coldefs, def) with def.Column.Name)
+					if len(chain) == 2 && chain[0].Name() == "Column" && (sameVar(dvs[0], root) || stripConv(dvs[0]) == stripConv(root)) {
+						nameOK = true
+					}
+					if u, ok := dvs[0].(*ssa.UnOp); ok {
+						if al, isAl := u.X.(*ssa.Alloc); isAl && ssa.Value(al) == root {
+							nameOK = nameOK || (len(chain) == 2 && chain[0].Name() == "Column")
+						}
+					}
 					if u, ok := dvs[0].(*ssa.UnOp); ok {
 						if lit, ok := u.X.(*ssa.Alloc); ok {
 							for _, ref := range *lit.Referrers() {
@@ -101,7 +125,21 @@ func propC11(c *Ctx) {
 		}
 		c.Check("R11.1", fmt.Sprintf("setCols/pair#%d", i+1), ca.st.Pos(), sameBlock && nameOK, "one Columns entry (the column's Name) and one coldef (holding that column) are appended together")
 	}
-	if len(colApps) >= 2 {
+	if sharedAdd != nil && len(colApps) == 1 && len(addSites) >= 2 {
+		// the shared literal is called first from the loop over Event.Selected(), then from the loop over Block
+		r, _ := reach(siteOf(addSites[1]), isInstr(addSites[0]), nil)
+		firstSel := false
+		allInstrs(sc, func(in ssa.Instruction) {
+			if call, ok := in.(*ssa.Call); ok {
+				if f := staticCallee(call); f != nil && f.Name() == "Selected" && dominatesInstr(call, addSites[0]) && !dominatesInstr(addSites[0], call) {
+					if r2, _ := reach(siteOf(addSites[1]), isInstr(call), nil); !r2 {
+						firstSel = true
+					}
+				}
+			}
+		})
+		c.Check("R11.1", "setCols/inputs-before-block-fields", sc.Pos(), !r && firstSel, "event inputs are laid out before block fields (the row builders rely on it)")
+	} else if len(colApps) >= 2 {
 		r, _ := reach(siteOf(colApps[1].st), isInstr(colApps[0].st), nil)
 		// first pair ranges over Event.Selected(), second over Block
 		firstSel := false
@@ -165,6 +203,17 @@ func propC11(c *Ctx) {
 			idxOK := isInduction(cs.idx) && len(loopExitEdgesField(fn, cs.idx, fDefs)) > 0
 			// the value derives from coldefs[sameIndex]
 			valOK := derivesFromDef(cs.val, cs.idx, fDefs, 0)
+			if !valOK && isInduction(stripConv(cs.val)) {
+				// the element index of the decoded row, stored for the coldef that asks for it by name:
+				// `case def.BlockData.Name == "abi_idx": row[j] = i`
+				sel, _ := cmpEdges(cs.at.Parent(), func(b *ssa.BinOp) bool {
+					k, ok := constString(b.Y)
+					return b.Op == token.EQL && ok && k == "abi_idx" && fromDefElem(b.X, cs.idx, fDefs)
+				})
+				if len(sel) > 0 && guardedByEdges(cs.at.Parent(), cs.at, sel) {
+					valOK = true
+				}
+			}
 			c.Check("R11.1", fmt.Sprintf("%s/cell-store#%d", fnName(fn), nSt), instrPos(cs.at), idxOK && valOK,
 				fmt.Sprintf("row[k] = v with k the loop index over coldefs (%v) and v computed from coldefs[k] (%v)", idxOK, valOK))
 		}
@@ -297,6 +346,13 @@ func propC11(c *Ctx) {
 							origins(cv, d+1)
 						}
 					}
+				case *ssa.Parameter:
+					// the table handed to setCols by its caller (`topics, n := ev.topics(); … ig.setCols(topics)`)
+					for _, cs := range NewResolver(w).CallersOf(x.Parent()) {
+						if k := paramIndex(x); k < len(cs.Common().Args) {
+							origins(cs.Common().Args[k], d+1)
+						}
+					}
 				case *ssa.Call:
 					if f := staticCallee(x); f != nil && f.Blocks != nil && isRepoFunc(f) {
 						srcFns[f] = true
@@ -319,7 +375,11 @@ func propC11(c *Ctx) {
 						return
 					}
 					cnt++
-					if fnName(fn) != "(*dig.Integration).setCols" {
+					top := fn
+					for top.Parent() != nil {
+						top = top.Parent()
+					}
+					if fnName(top) != "(*dig.Integration).setCols" {
 						bad = append(bad, fnName(fn)+" at "+w.Pos(st.Pos()))
 					}
 					origins(st.Val, 0)
